@@ -16,7 +16,7 @@ func init() {
 			"R-C18-2: gate order (shared with C03 R-C03-3): no credential function is reachable from the rejecting edge of the blacklist/ban/rate gates. " +
 			"R-C18-3: in RecordFailure the ban calls are dominated by the threshold comparisons (total >= PermanentBanAt with duration 0; recent >= MaxFailures with BanDuration), the counts are read under the failures lock after pruning; every comparison of a ban/blacklist expiry with the clock is conjoined with the not-zero test (permanent entries never expire). " +
 			"R-C18-4: a removal of a ban/blacklist entry that is triggered by an expiry observation re-tests expiry inside the critical section that deletes (directly, or in the function it is handed to). " +
-			"R-C18-6: the rate limiter installs the token bucket of a key only after a lookup under the write lock found none (one bucket per address). " +
+			"R-C18-6: every write of a bucket's token count is a consumption, the capacity or a value clamped to the capacity; the rate limiter installs the token bucket of a key only after a lookup under the write lock found none (one bucket per address). " +
 			"R-C18-5: every access to failures, bannedIPs, blacklist, whitelist and the token-bucket state holds the corresponding mutex. " +
 			"Decides these necessary conditions; does not decide window/refill arithmetic over timings.",
 		Run: runC18,
@@ -369,6 +369,82 @@ func runC18(r *Report) {
 	}
 	r.Floor("R-C18-4", 4, "expiry-triggered removals")
 
+	// ---- R-C18-6 the bucket never holds more than its capacity --------------------------------
+	// every write of TokenBucket.tokens outside the constructor is a consumption (tokens - n), the
+	// capacity itself, or min(..., capacity): an unclamped refill lets an idle address save up an
+	// arbitrarily large burst
+	nTok := 0
+	for _, f := range r.P.FuncsIn(secPkg) {
+		Instrs(f, func(in ssa.Instruction) {
+			st, ok := in.(*ssa.Store)
+			if !ok {
+				return
+			}
+			t, fld, base, ok := FieldOf(st.Addr)
+			if !ok || t != "TokenBucket" || fld != "tokens" || IsFresh(base) {
+				return
+			}
+			nTok++
+			isFieldLoad := func(v ssa.Value, name string) bool {
+				u, ok := stripValue(v).(*ssa.UnOp)
+				if !ok || u.Op != token.MUL {
+					return false
+				}
+				_, f2, _, ok := FieldOf(u.X)
+				return ok && f2 == name
+			}
+			var okVal func(v ssa.Value, d int) bool
+			okVal = func(v ssa.Value, d int) bool {
+				if d > 3 {
+					return false
+				}
+				v = stripValue(v)
+				if isFieldLoad(v, "capacity") {
+					return true
+				}
+				switch x := v.(type) {
+				case *ssa.BinOp:
+					return x.Op == token.SUB && isFieldLoad(x.X, "tokens")
+				case *ssa.Call:
+					if b, isB := x.Call.Value.(*ssa.Builtin); isB && b.Name() == "min" {
+						for _, a := range x.Call.Args {
+							if isFieldLoad(a, "capacity") {
+								return true
+							}
+						}
+					}
+					if c := CalleeOf(x); c.Is("math:Min") || isMinFunc(x.Common().StaticCallee()) {
+						for _, a := range x.Call.Args {
+							if isFieldLoad(a, "capacity") {
+								return true
+							}
+						}
+					}
+				case *ssa.Phi:
+					for _, e := range x.Edges {
+						if !okVal(e, d+1) {
+							return false
+						}
+					}
+					return true
+				}
+				// an explicit clamp: the store is under `v <= capacity` / not `v > capacity`
+				for _, ft := range Facts(st.Block()) {
+					if bo, isB := ft.Cond.(*ssa.BinOp); isB && stripValue(bo.X) == v && isFieldLoad(bo.Y, "capacity") {
+						if (bo.Op == token.LEQ && ft.Pol) || (bo.Op == token.GTR && !ft.Pol) || (bo.Op == token.LSS && ft.Pol) || (bo.Op == token.GEQ && !ft.Pol) {
+							return true
+						}
+					}
+				}
+				return false
+			}
+			r.Ob("R-C18-6", st.Pos(), okVal(st.Val, 0), "the bucket's token count is written only as tokens-n, the capacity, or a value clamped to the capacity (burst never exceeds the configured burst)", r.P.FuncName(f), "tokens-clamped")
+		})
+	}
+	if nTok < 2 {
+		r.Fail("R-C18-6", 0, fmt.Sprintf("only %d writes of TokenBucket.tokens found (Take and refill confirmed by hand)", nTok), secPkg, "floor:tokens-writes")
+	}
+
 	// ---- R-C18-6 token bucket of a key is created once ---------------------------------------
 	if al := r.need("R-C18-6", secPkg, "RateLimiter.allow"); al != nil {
 		n := 0
@@ -473,4 +549,47 @@ func onlyCalledFrom(p *Prog, pkg, fn string, allowed ...string) bool {
 		})
 	}
 	return ok && n > 0
+}
+
+// isMinFunc: g(a, b) returns, on every path, the parameter that a comparison on that path shows
+// to be the smaller (or equal) one.
+func isMinFunc(g *ssa.Function) bool {
+	if g == nil || len(g.Params) != 2 || len(g.Blocks) == 0 || g.Signature.Results().Len() != 1 {
+		return false
+	}
+	a, b := ssa.Value(g.Params[0]), ssa.Value(g.Params[1])
+	for _, ret := range Returns(g) {
+		v := stripValue(RetVal(ret, 0))
+		var other ssa.Value
+		switch v {
+		case a:
+			other = b
+		case b:
+			other = a
+		default:
+			return false
+		}
+		ok := false
+		for _, ft := range Facts(ret.Block()) {
+			bo, isB := ft.Cond.(*ssa.BinOp)
+			if !isB {
+				continue
+			}
+			// v <= other established?
+			le := false
+			switch {
+			case bo.X == v && bo.Y == other:
+				le = (bo.Op == token.LSS && ft.Pol) || (bo.Op == token.LEQ && ft.Pol) || (bo.Op == token.GTR && !ft.Pol) || (bo.Op == token.GEQ && !ft.Pol)
+			case bo.X == other && bo.Y == v:
+				le = (bo.Op == token.GTR && ft.Pol) || (bo.Op == token.GEQ && ft.Pol) || (bo.Op == token.LSS && !ft.Pol) || (bo.Op == token.LEQ && !ft.Pol)
+			}
+			if le {
+				ok = true
+			}
+		}
+		if !ok {
+			return false
+		}
+	}
+	return true
 }
